@@ -213,6 +213,8 @@ def _exec_prog(ctx, spec):
     empty = 0 in shape
     if empty:
         out.cls('empty-array')
+    if spec.get('large'):
+        out.cls('large-array:>' + spec['large'])
     out.nontrivial = lang != 'darr'
     with ctx.scratch() as d:
         root, apath, other = layout(d)
@@ -409,6 +411,21 @@ def prog_specs(seeds=(1,)):
         yield {'f': 'prog', 't': t, 'bo': '<', 'shape': [3, 2], 'lang': lang, 'pm': pm, 'seed': 2, 'via': via}
     for t, shape, lang in itertools.product(NUMTYPES, [(0,), (0, 3)], LANGS):
         yield {'f': 'prog', 't': t, 'bo': '<', 'shape': list(shape), 'lang': lang, 'pm': 'rel', 'seed': 1}
+    yield from large_specs(thorough=len(seeds) > 1)
+
+
+def large_specs(thorough):
+    # arrays just above a megabyte, 16 MiB and 64 MiB: a reader may be chosen by size, and has to be right at every size
+    for lang in LANGS:
+        for bo in '<>':
+            yield {'f': 'prog', 't': 'int16', 'bo': bo, 'shape': [2 ** 19 + 1], 'lang': lang, 'pm': 'rel', 'seed': 1, 'large': '1MiB'}
+            yield {'f': 'prog', 't': 'float32', 'bo': bo, 'shape': [1025, 257], 'lang': lang, 'pm': 'rel', 'seed': 1, 'large': '1MiB'}
+        yield {'f': 'prog', 't': 'float64', 'bo': '>', 'shape': [2 ** 23 + 1], 'lang': lang, 'pm': 'rel', 'seed': 1, 'large': '64MiB'}
+        if thorough:
+            yield {'f': 'prog', 't': 'float64', 'bo': '<', 'shape': [2 ** 23 + 1], 'lang': lang, 'pm': 'base', 'seed': 1, 'large': '64MiB'}
+            yield {'f': 'prog', 't': 'int32', 'bo': '>', 'shape': [4097, 1025], 'lang': lang, 'pm': 'abs', 'seed': 1, 'large': '16MiB'}
+            yield {'f': 'prog', 't': 'complex64', 'bo': '>', 'shape': [2049, 4097], 'lang': lang, 'pm': 'rel', 'seed': 1, 'large': '64MiB'}
+            yield {'f': 'prog', 't': 'uint8', 'bo': '<', 'shape': [2 ** 27 + 1], 'lang': lang, 'pm': 'rel', 'seed': 1, 'large': '128MiB'}
 
 
 def offer_specs():
